@@ -19,19 +19,26 @@ def run(ctx):
                        'and the descriptor was linked once into the caller\'s batch when it was not in one, old bits | band argument '
                        'otherwise; every root that can reach make-ready is a poll slot and calls it only after a kernel wait that '
                        'did not fail', floor=9)
-    ctx.rule('R-C03c', 'registration initialises all dispatch state (INIT-COMPLETE for iv_fd_, per poll method)', floor=16)
+    ctx.rule('R-C03c', 'registration initialises all dispatch state (INIT-COMPLETE for iv_fd_, per poll method): every private field a library '
+                       'function may read is written to the descriptor being registered (identified through casts, copies and helper '
+                       'parameters) on every path of the registration functions that leaves it registered, or on every path of IV_FD_INIT', floor=16)
     ctx.rule('R-C03d', 'kernel tokens that are not descriptors (kick token, timer token; found as the non-descriptor values stored as epoll user data) are '
                        'compared unequal to the very entry that is then used as a descriptor', floor=3)
     ctx.section(dispatch)
     ctx.section(still_registered)
     ctx.section(ready_bits)
-    ctx.section(lambda c: generic.init_complete(c, 'R-C03c', kinds={'iv_fd_'}))
+    ctx.section(lambda c: h03.init_complete(c, 'R-C03c'))
     ctx.section(tokens)
     ctx.rule('R-C03e', 'no kernel registration outlives unregister: at every return of iv_fd_unregister, per poll method, the kernel was told after '
                        'the last change of wanted_bands unless a branch established that nothing differs, and the descriptor owns no slot of the '
                        'descriptor array (same demand as C01 R-C01c, decided here for the descriptor kinds only; a stale registration delivers '
                        'events for a reused struct)', floor=2)
     ctx.section(kernel_registration)
+    ctx.rule('R-C03f', 'a kernel result is attributed to the descriptor it was reported for: in a poll method that keeps descriptors in array '
+                       'slots, the descriptor array and the kernel-facing entry array indexed in parallel describe the same descriptors after '
+                       'every interest change (the method\'s own register_fd / notify_fd slot code, helpers inlined, evaluated on a bounded '
+                       'model: 3 descriptors, every sequence of 3 changes from the empty state)', floor=2)
+    ctx.section(slot_pairing)
 
 
 def _by_site(contexts):
@@ -120,7 +127,13 @@ def dispatch(ctx):
             called = flow_cache[key]
             if id(g) not in left_cache:
                 left_cache[id(g)] = h03.left_batch(g)
-            if rname is None or obj != rname or rname not in left_cache[id(g)].get((cs['_b'], cs['_i']), ()):
+            left = left_cache[id(g)].get((cs['_b'], cs['_i']), ())
+            node = h03.owner_node(objx)      # the descriptor is never held in a variable: owner of the node a pop helper returned
+            if node is not None:
+                gone = ('@node:' + node) in left
+            else:
+                gone = rname is not None and obj == rname and rname in left
+            if not gone:
                 res['unlinked'] = False
                 bad_path = bad_path or path_to(g, cs)
             before = set(called.get((cs['_b'], cs['_i']), ()))
@@ -158,9 +171,12 @@ def still_registered(ctx):
     prog = ctx.prog
     n = 0
     for (root, g, sites) in h03.dispatch_contexts(prog):
-        reps, objvars, markers = h03.stale_after_callback(g, lambda e: (callback_kind(e) or ('', ''))[0] == 'callback' and callback_kind(e)[1])
-        # the descriptor variables the sites dispatch through (by use, not by name)
-        fdvars = sorted({rv['name'] for rv in (root_var(h03.site_object(cs)[0]) for cs in sites if h03.handler_field(cs)) if rv is not None and rv['name'] in objvars})
+        # the descriptor variables the sites dispatch through (by use: not by name, and not by the type annotation either -- the
+        # descriptor may be the untyped return temporary of a pop helper handed straight to the per-descriptor helper)
+        via = {rv['name'] for rv in (root_var(h03.site_object(cs)[0]) for cs in sites if h03.handler_field(cs)) if rv is not None}
+        reps, objvars, markers = h03.stale_after_callback(g, lambda e: (callback_kind(e) or ('', ''))[0] == 'callback' and callback_kind(e)[1],
+                                                          also=via)
+        fdvars = sorted(v for v in via if v in objvars)
         for k, v in enumerate(fdvars):
             n += 1
             bad = [(e, acc) for (e, vv, acc, cb) in reps if vv == v]
@@ -212,10 +228,11 @@ def ready_bits(ctx):
         registers = any(h03.writes_field(e, FD, 'registered') and e.get('op') == '=' and 'rhs' in e and h03.const_value(e['rhs']) not in (None, 0)
                         for e in g.events())
         zero = all(e.get('op') == '=' and 'rhs' in e and h03.const_value(e['rhs']) == 0 for e in stores)
-        e0 = ([e for e in stores if not (e.get('op') == '=' and 'rhs' in e and h03.const_value(e['rhs']) == 0)] or stores)[0]
+        # (a store on an arm that constant folding removed for this entry point leaves no store here: nothing is written)
+        e0 = ([e for e in stores if not (e.get('op') == '=' and 'rhs' in e and h03.const_value(e['rhs']) == 0)] or stores or [{'loc': r.loc}])[0]
         ctx.ob('R-C03b', 'ready_bands:writer:%s' % r.name, registers and zero, loc=e0['loc'],
                detail='besides the make-ready operation only registration (an entry point that sets registered) writes ready_bands, '
-                      'and it writes 0: %s' % ', '.join(sorted({describe(e) for e in stores})), fn=q)
+                      'and it writes 0: %s' % (', '.join(sorted({describe(e) for e in stores})) or 'no store reachable from this entry point'), fn=q)
     # ---- effect of a make-ready operation on the bits, as a function of old value and arguments ----
     for q in sorted(mk):
         _make_ready_value(ctx, prog, mk[q])
@@ -449,16 +466,21 @@ def tokens(ctx):
             ok = True
             bad = None
             for e in calls:
-                # the expression(s) the descriptor argument was loaded from
+                # the kernel entries the descriptor argument was loaded from, each with the point at which it was loaded:
+                # the comparison with the token must hold *there* (the entry may be stepped past afterwards: `ev++`)
                 srcs = _descriptor_sources(g, e)
-                differs = set()      # canon of the kernel entries known to differ from the token here
-                for (op, l, r) in at(e):
-                    if op != '!=':
-                        continue
-                    for (x, y) in ((l, r), (r, l)):
-                        if h03.kernel_entry_ptr(x) and h03.abstract_token(y) == tok:
-                            differs.add(canon(x))
-                if not srcs or not srcs <= differs:
+                good = bool(srcs)
+                for (entry, at_ev) in srcs:
+                    differs = set()      # canon of the kernel entries known to differ from the token at the load
+                    for (op, l, r) in at(at_ev):
+                        if op != '!=':
+                            continue
+                        for (x, y) in ((l, r), (r, l)):
+                            if h03.kernel_entry_ptr(x) and h03.abstract_token(y) == tok:
+                                differs.add(canon(x))
+                    if entry not in differs:
+                        good = False
+                if not good:
                     ok = False
                     bad = bad or e
             ctx.ob('R-C03d', '%s:token %s' % (t.replace('iv_fd_poll_method_', ''), h03.token_name(tok)), ok, loc=(bad or {'loc': f.loc})['loc'],
@@ -467,22 +489,24 @@ def tokens(ctx):
 
 
 def _descriptor_sources(g, call):
-    """canon of the kernel-entry expression(s) the descriptor argument of a make-ready call holds:
-    the argument itself when copy propagation put the access path there, else the right-hand sides of
-    the definitions of the argument variable."""
-    out = set()
+    """[(canon of the kernel-entry expression, event at which the descriptor value was loaded from it)] for the descriptor
+    argument of a make-ready call: the call itself when copy propagation put the access path into the argument (the entry
+    is read there), else every definition of the argument variable (its right-hand side must be a kernel entry: the value
+    the variable carries to the call was read at the definition, whatever happens to the cursor/index afterwards).
+    Empty when some definition is not a load from a kernel entry."""
+    out = []
     for a in call.get('args', []):
         x = strip(a)
         if h03.kernel_entry_ptr(x):
-            out.add(canon(x))
+            out.append((canon(x), call))
         elif isinstance(x, dict) and x.get('k') == 'var' and x.get('record') in h03.FD_RECORDS and x.get('ptr'):
             defs = [e for e in g.events() if e['ev'] == 'store' and h03.redefines(e, x['name'])]
             if not defs:
-                return set()
+                return []
             for d in defs:
                 if d.get('op') != '=' or 'rhs' not in d or not h03.kernel_entry_ptr(d['rhs']):
-                    return set()
-                out.add(canon(d['rhs']))
+                    return []
+                out.append((canon(d['rhs']), d))
     return out
 
 
@@ -547,3 +571,24 @@ def kernel_registration(ctx):
                       '%d is what registration leaves there)' % (un.name, '/'.join(sorted(k[1] for k in idxkeys)), free, free), fn=un.q)
     if n < 2:
         raise AnalysisBroken('no place outside the library\'s lists keeps a descriptor pointer (kernel user data, array slot): discovery failed')
+
+
+def slot_pairing(ctx):
+    """R-C03f: the poll slot takes descriptor k from the descriptor array and its readiness from element k of the kernel-facing
+    array; what keeps the two in step is the notify_fd slot (slot assignment, swap-with-last removal).  Decided by running that
+    code on a small concrete model (h03.slot_pairing), not by looking at the statements."""
+    prog = ctx.prog
+    n = 0
+    for t in sorted(prog.method_tables()):
+        fns = h03.table_functions(prog, t)
+        if not any(h03.slot_stores(h03.inlined(prog, f)) for f in fns.values()):
+            continue
+        bad = h03.slot_pairing(prog, t)
+        f = fns.get('notify_fd') or sorted(fns.values(), key=lambda x: x.q)[0]
+        n += 1
+        ctx.ob('R-C03f', 'slots-parallel [%s]' % t.replace('iv_fd_poll_method_', ''), not bad, loc=f.loc,
+               detail=('after %s: %s' % bad[0]) if bad else
+                      'after every sequence of interest changes on the model each descriptor that wants events owns one slot, the descriptor '
+                      'array holds it there and the kernel-facing array carries its file descriptor there; the others own none', fn=f.q)
+    if not n:
+        raise AnalysisBroken('no poll method keeps descriptors in array slots: discovery failed')
